@@ -1,6 +1,7 @@
 import OdakProofs.Props.C09
 import OdakProofs.Props.C08
 import OdakModel.Hologram
+import OdakModel.Generated.CallSites
 import Mathlib.Analysis.SpecialFunctions.Trigonometric.Inverse
 
 /-! # C07 – hologram optimisers return a displayable hologram and its true reconstruction
@@ -82,6 +83,27 @@ theorem C07_resolution_preserved (h w : Nat) :
     ((Index.torchCrop false 0 (2 * h) (2 * w) 0 0).comp (Index.torchPad false 0 h w 0 0).2).len = h ∧
     ((Index.torchCrop false 1 (2 * h) (2 * w) 0 0).comp (Index.torchPad false 1 h w 0 0).2).len = w :=
   ⟨(C08_torch_crop_pad_id h w).1.1, (C08_torch_crop_pad_id h w).2.1⟩
+
+/-- "The reconstruction returned alongside is exactly what propagating that returned hologram with the same settings produces":
+    decision logic on the REGENERATED table of `propagate_beam` call sites of a routine.  The routine returns `[h, r]`; the LAST
+    assignment to `r` is a call outside the loop that propagates `h` itself, and its settings are those of a call inside the loop that also
+    produces the reconstruction from the hologram (so the optimised quantity and the returned one are the same function of the hologram). -/
+def ReturnsTrueReconstruction (calls : List Gen.PCall) (rets : List String) : Bool :=
+  match rets, calls.reverse with
+  | [h, r], last :: _ =>
+      last.target == r && last.field == h && !last.inLoop &&
+      calls.any (fun c => c.inLoop && c.target == r && c.field == h && c.settings == last.settings)
+  | _, _ => false
+
+theorem C07_returned_reconstruction_uses_the_loop_settings :
+    ReturnsTrueReconstruction Gen.gsTorchCalls Gen.gsTorchReturns = true ∧
+    ReturnsTrueReconstruction Gen.sgdTorchCalls Gen.sgdTorchReturns = true ∧
+    ReturnsTrueReconstruction Gen.gsNumpyCalls Gen.gsNumpyReturns = true := by decide
+
+/-- the predicate is not vacuous: a final call with another propagation type, or one that propagates something else, is rejected -/
+example : ReturnsTrueReconstruction
+    [⟨"reconstruction", "hologram", ["k", "distance", "dx", "wavelength", "propagation_type"], true⟩,
+     ⟨"reconstruction", "hologram", ["k", "distance", "dx", "wavelength"], false⟩] ["hologram", "reconstruction"] = false := by decide
 
 /-- non-vacuity -/
 example : (0 : ℝ) ≤ 1 / 2 ∧ (1 / 2 : ℝ) ≤ 2 ∧ (0 : ℝ) < 2 := by norm_num
